@@ -94,6 +94,7 @@ type faultEvent struct {
 	POk     bool   `json:"pok"`
 	PTerm   []term `json:"pterm"`
 	PHeight int    `json:"pheight"`
+	PSize   int    `json:"psize"`
 }
 
 type faultTree struct {
@@ -492,6 +493,7 @@ func faultsFamily(seed int64, n int, out *json.Encoder, perKind int) {
 						p := &projector{nf: t.cfg.NF, kc: t.kc, vc: t.vc, st: t.st}
 						ev.PTerm = p.kid(linkOf(root))
 						ev.PHeight = int(root.Height)
+						ev.PSize = int(root.Size)
 						ev.POk = len(p.bad) == 0
 						return nil
 					})
